@@ -229,6 +229,25 @@ theorem pad_accesses_inbounds (a : Arr Val) (widths : List (Nat × Nat))
       acc.ok = true ∧ acc.affine = true ∧ acc.name = "in_0" :=
   padExpr_accesses ⟨hw, hc, hb, hin0, boundsOK_of_map hw hc hb hbounds, hi⟩ hcv hbn
 
+/-! ## einsum -/
+
+/-- `map_einsum`: under the hypotheses of `lower_einsum_correct`, every operand
+    access made while evaluating the lowered einsum — in every iteration of the
+    (nested) reduction, i.e. for every valuation of the reduction indices within
+    their bounds — is affine and within the accessed operand. -/
+theorem einsum_accesses_inbounds (descrs : List (List EAxis)) (nout : Nat)
+    (args : List (Arr Val)) (i : Idx)
+    (hlen : descrs.length = args.length) (hne : args ≠ [])
+    (hwf : ∀ p ∈ descrs.zip args, p.1.length = p.2.shape.length)
+    (hbc : ∀ p ∈ descrs.zip args, ∀ q ∈ p.1.zip p.2.shape,
+      q.2 = Spec.axisLen (Spec.axisLenTable descrs (args.map (·.shape))) q.1 ∨ q.2 = 1)
+    (helem : ∀ p ∈ descrs.zip args, ∀ j, EAxis.elem j ∈ p.1 → j < nout)
+    (hred : ∀ j, j < Spec.numRed descrs → EAxis.red j ∈ descrs.flatMap id)
+    (hi : inB (Spec.einsumV descrs nout args).shape i = true) :
+    ∀ acc ∈ accesses (idxEnv i (Lower.inBinds args)) (Lower.einsum descrs (args.map (·.shape))),
+      acc.ok = true ∧ acc.affine = true :=
+  einsum_accesses ⟨hlen, hne, hwf, hbc, helem, hred, hi⟩
+
 /-! ## non-vacuity: the hypotheses are those of C02 (instances there); here the
     access lists of concrete instances, computed -/
 
@@ -242,6 +261,13 @@ example : (accesses (idxEnv [1, 4] (Lower.inBinds [exArr, exArr3])) (Lower.conca
 example : ((Lower.reshape .C [2, 3] [3, 2]).map fun e =>
     (accesses (idxEnv [2, 1] [("_in0", exArr)]) e).map (fun acc => (acc.name, acc.idx, acc.ok)))
       = some [("_in0", [.i 1, .i 2], true)] := by decide
+-- einsum `ij,jk->ik` at output [1, 2]: 3 iterations × 2 operands = 6 accesses, all in bounds
+example : (accesses (idxEnv [1, 2] (Lower.inBinds [exM23, exM34]))
+      (Lower.einsum (Lower.einsumDescrs ["ij".toList, "jk".toList] "ik".toList) [[2, 3], [3, 4]])).map
+    (fun acc => (acc.name, acc.idx, acc.ok))
+    = [("_in0", [.i 1, .i 0], true), ("_in1", [.i 0, .i 2], true),
+       ("_in0", [.i 1, .i 1], true), ("_in1", [.i 1, .i 2], true),
+       ("_in0", [.i 1, .i 2], true), ("_in1", [.i 2, .i 2], true)] := by decide
 -- pad: inside the operand one in-bounds access; in the pad area (here a corner) none
 example : (accesses (idxEnv [2, 3] [("in_0", exArr)])
       (Lower.padExpr [(1, 2), (2, 1)] [(.int 10, .int 20), (.int 30, .int 40)] [.int 3, .int 5])).map
